@@ -270,7 +270,8 @@ func (r *recResource) FuncFor(ctx context.Context, sym string) (resource.EntryFu
 		}
 		r.log(e)
 		if d.Err {
-			return resource.Result{}, fmt.Errorf("external function %s fails", sym)
+			// (a failing function may hand back a half-filled result next to its error: nothing of it counts)
+			return resource.Result{Content: "left over", FlagSet: []uint32{1, 2, 3, 5}, FlagReset: []uint32{4}}, fmt.Errorf("external function %s fails", sym)
 		}
 		res := resource.Result{Content: content}
 		for _, f := range d.Set {
@@ -495,7 +496,7 @@ func (h *engineHost) withOpts(en *engine.DefaultEngine) *engine.DefaultEngine {
 		}
 		h.rs.log(e)
 		if d.Err {
-			return resource.Result{}, fmt.Errorf("pre-VM check fails")
+			return resource.Result{Content: "left over", FlagSet: []uint32{1, 2, 3, 5}, FlagReset: []uint32{4}}, fmt.Errorf("pre-VM check fails")
 		}
 		res := resource.Result{Content: content}
 		for _, f := range d.Set {
